@@ -355,6 +355,94 @@ def parse_text(R, ctx):
              "text argument comes from %s%s" % (sorted(map(str, orig)), (" through %s" % via) if via else " unchanged"))
 
 
+LITERAL_CTORS = ("nodes::expressions::string::StringExpression::new", "nodes::expressions::interpolated_string::StringSegment::new",
+                 "nodes::types::string_type::StringType::new")
+
+
+def literal_panics(R, ctx):
+    """Reading a literal never panics: it answers with a value or an error -- and a valid literal gets the value Luau gives it."""
+    from .. import peval
+    from ..peval import Enum, Struct
+    from ..luaref import read_string_literal, LiteralError
+    rid = "C12.literals"
+    lib = ctx.lib
+    R.rule(rid, "the constructors that read a string literal (StringExpression::new, StringSegment::new), evaluated from their typed tree with "
+                "panics made observable (unwrap / expect of None or Err, panic!, unreachable! raise instead of being skipped), on every escape "
+                "form at its boundary values -- \\u{..} below, inside and above the surrogate range and above 0x10FFFF, empty and unclosed "
+                "braces, \\x with 0/1/2 digits and non-digits, decimal escapes up to and above 255 and followed by digits, \\z, unknown "
+                "escapes, a trailing backslash, quotes of both kinds, long brackets of levels 0..2, missing closers: no input panics; and a "
+                "literal an independent reader of Luau's syntax accepts gets exactly the bytes that reader gives")
+    ctors = [(p, lib.fn(p)) for p in LITERAL_CTORS[:2]]
+    if not R.require(rid, "anchor:constructors", all(f is not None and thir.body_of(f) for _, f in ctors), "", "literal constructors not found"):
+        return
+    BODIES = ["a", "", "\\u{41}", "\\u{D7FF}", "\\u{D800}", "\\u{DBFF}", "\\u{DC00}", "\\u{DFFF}", "\\u{E000}", "\\u{10FFFF}", "\\u{110000}", "\\u{FFFFFFFFFFFF}",
+              "\\u{}", "\\u{41", "\\u41", "\\u", "\\x41", "\\x4", "\\x", "\\xZZ", "\\x4Z", "\\65", "\\065", "\\0651", "\\255", "\\256", "\\999", "\\0", "\\z  a", "\\z",
+              "\\q", "\\", "\\n\\t\\r\\a\\b\\f\\v", "\\\\", "it\\'s", 'say \\"x\\"', "é", "\\u{e9}", "a\\\nb"]
+    bad, n, compared = [], 0, 0
+    for path, fn in ctors:
+        seg = "StringSegment" in path
+        texts = []
+        for b in BODIES:
+            if seg:
+                texts.append((b.replace("\\\\", "\\"), b.replace("\\\\", "\\")))
+            else:
+                body = b.replace("\\\\", "\\")
+                texts += [('"%s"' % body, None), ("'%s'" % body, None)]
+        if not seg:
+            texts += [("[[long]]", None), ("[==[a]]b]==]", None), ("[[\nfirst newline dropped]]", None), ("[[unclosed", None), ("[=[x]]", None), ('"unclosed', None), ("'", None), ("", None), ("[", None)]
+        for text, inner in texts:
+            pe = peval.PEval(lib, ctx.an)
+            pe.panics = True
+            n += 1
+            try:
+                r = pe.call_fn(fn, [text])
+            except peval.Panic as e:
+                bad.append((path.split("::")[-2], text, "PANICS (%s)" % e))
+                continue
+            except peval.OutOfFuel:
+                bad.append((path.split("::")[-2], text, "does not terminate"))
+                continue
+            try:
+                want = read_string_literal(text, "luau", interpolated=seg)
+            except LiteralError:
+                continue            # not a literal Luau accepts: any non-panicking answer is fine
+            val = r.fields.get("0").fields.get("value") if isinstance(r, Enum) and r.variant == "Ok" and isinstance(r.fields.get("0"), Struct) else None
+            compared += 1
+            if not (isinstance(val, list) and all(isinstance(b_, int) for b_ in val) and bytes(val) == want):
+                bad.append((path.split("::")[-2], text, "Luau reads %r, darklua %s %s" % (want, val if val is not None else repr(r)[:60], pe.unknown_reasons[:1])))
+    R.ob(rid, "no-panic-and-luau-values", not bad, ctx.where(ctors[0][1]), "%d literals: none panics, %d valid ones read as Luau reads them" % (n, compared) if not bad else "%s(%r): %s (%d literals differ)" % (bad[0] + (len(bad),)))
+    R.require(rid, "floor", n >= 100 and compared >= 40, "", "%d literals, %d compared" % (n, compared))
+
+
+def literal_errors_propagate(R, ctx):
+    """An unreadable literal is an error value of the parse, not a panic: the fallible constructors are never unwrapped."""
+    rid = "C12.literal-errors"
+    lib = ctx.lib
+    R.rule(rid, "error discipline: in non-test code, the Result of a fallible literal constructor (StringExpression::new, StringSegment::new, "
+                "StringType::new, NumberExpression::from_str / str::parse::<NumberExpression>) is never the receiver of unwrap / expect: it "
+                "reaches `?`, map_err or a match (full_moon accepts escapes darklua's readers refuse, so these errors do occur on user input)")
+    n = 0
+    for f in lib.fn_list:
+        b = thir.body_of(f)
+        if not b or "::test" in f["path"] or f["path"].startswith("nodes::") and "::tests::" in f["path"]:
+            continue
+        fa = None
+        for c in thir.walk(b):
+            if c.get("k") == "Call" and c.get("fname") in ("unwrap", "expect") and c["args"]:
+                fa = fa or ctx.an.fa(f["path"])
+                srcs = [callee_of(y) or y.get("fn") or "" for y in fa.source_calls(c["args"][0])]
+                hit = [s_ for s_ in srcs if s_ in LITERAL_CTORS or s_.endswith("NumberExpression as core::str::traits::FromStr>::from_str")]
+                recv_t = lib.ty_str(lib.strip_refs(c["args"][0]["t"])) if "t" in c["args"][0] else ""
+                if hit and recv_t.startswith("core::result::Result<"):
+                    n += 1
+                    R.ob(rid, "%s|%s" % (f["path"].split("::<")[0][-60:], hit[0].split("::")[-2]), False, ctx.where(f, c.get("ln")),
+                         "the result of %s is passed to %s: a literal the reader refuses aborts the whole run" % (hit[0].split("::")[-2] + "::new", c["fname"]))
+    ctor_calls = sum(1 for f in lib.fn_list if thir.body_of(f) for c in thir.calls(f) if (callee_of(c) or "") in LITERAL_CTORS)
+    R.require(rid, "floor:constructor-calls", ctor_calls >= 3, "", "%d calls of the literal constructors in the crate (positive control)" % ctor_calls)
+    if n == 0:
+        R.ob(rid, "no-unwrapped-literal-result", True, "", "%d constructor calls, none unwrapped" % ctor_calls)
+
+
 def run(R, ctx):
     R.explanation = (
         "Narrow structural part of crash-freedom: token references of foreign text are always replaced (coverage of "
@@ -369,6 +457,8 @@ def run(R, ctx):
     no_recursion(R, ctx)
     parse_values(R, ctx)
     parse_text(R, ctx)
+    literal_panics(R, ctx)
+    literal_errors_propagate(R, ctx)
     worker_errors(R, ctx)
     str_slices(R, ctx)
     census(R, ctx)
